@@ -83,3 +83,34 @@ def loop_with_init(tree: ast.AST, loop: ast.For, max_init: int = 4):
     if acc is None:
         raise SliceError("the loop's accumulator (NAME[...] = ... with NAME initialised before the loop) not found")
     return [ast.fix_missing_locations(s) for s in init] + [loop], acc
+
+
+def closure_factory(outer: ast.FunctionDef, inner: ast.FunctionDef, globs: dict, tag: str):
+    """A factory `make()` that re-creates a nested function together with the state it closes over: the simple assignments
+    of the enclosing function that precede the definition (`cache = {}`, `limit = 3`; anything that calls a function other
+    than a container constructor is left out) are executed first, then the def, and the function object is returned.
+    Each call of make() gives a fresh closure (fresh captured state)."""
+    pre = []
+    for st in outer.body:
+        if st is inner:
+            break
+        ok = isinstance(st, ast.Assign) and len(st.targets) == 1 and isinstance(st.targets[0], ast.Name) or isinstance(st, ast.AnnAssign) and isinstance(st.target, ast.Name) and st.value is not None
+        if not ok:
+            continue
+        calls = [c for c in ast.walk(st.value) if isinstance(c, ast.Call)]
+        if any(not (isinstance(c.func, ast.Name) and c.func.id in ("dict", "list", "set", "frozenset", "tuple", "defaultdict", "deque", "OrderedDict")) for c in calls):
+            continue
+        if isinstance(st, ast.AnnAssign):
+            st = ast.Assign(targets=[st.target], value=st.value, lineno=st.lineno, col_offset=0)
+        pre.append(st)
+    f2 = ast.FunctionDef(name=inner.name, args=inner.args, body=inner.body, decorator_list=[], returns=None, type_comment=None, lineno=inner.lineno, col_offset=0)
+    if hasattr(f2, "type_params"):
+        f2.type_params = []
+    for a in ast.walk(f2.args):
+        if isinstance(a, ast.arg):
+            a.annotation = None
+    body = "\n".join(ast.unparse(ast.fix_missing_locations(s)) for s in pre + [f2])
+    src = "def make():\n" + textwrap.indent(body, "    ") + f"\n    return {inner.name}\n"
+    ns = dict(globs)
+    exec(compile(src, f"<slice {tag}>", "exec"), ns)
+    return ns["make"], src
